@@ -32,6 +32,11 @@ pub const ROOT_LADDER: &str = "3rk3/3r4/8/8/8/8/3Q4/3RK3 w - - 0 1";
 /// the same idea one pawn pair and one knight pair richer: sum |psq| = 43210, i.e. still in the opening phase, and one
 /// capture (Qxd7, Rxd7 ...) takes it below the endgame threshold: the phase switch happens inside the explored lines
 pub const ROOT_LADDER_OPEN: &str = "2nrk3/3r1p2/8/8/8/8/3Q1P2/2NRK3 w - - 0 1";
+/// a pawn about to promote by capture while the opponent still owns all eight pawns (1.a4 b5 2.a5 Bb7 3.a6 Nf6 4.axb7
+/// Nc6), and its colour mirror: a second queen / third rook, bishop or knight appears while the other side's material
+/// is complete - the census a material-counting reader or evaluator sees only here
+pub const ROOT_PROMO_FULL: &str = "r2qkb1r/pPpppppp/2n2n2/1p6/8/8/1PPPPPPP/RNBQKBNR w KQkq - 0 5";
+pub const ROOT_PROMO_FULL_MIRROR: &str = "rnbqkbnr/1ppppppp/8/8/1P6/2N2N2/PpPPPPPP/R2QKB1R b KQkq - 0 5";
 pub const ROOT_KRK: &str = "8/8/8/4k3/8/8/8/R3K3 w - - 0 1";
 pub const ROOT_KQK: &str = "8/8/8/4k3/8/8/8/1Q2K3 w - - 0 1";
 pub const ROOT_KPK: &str = "8/8/8/4k3/8/8/4P3/4K3 w - - 0 1";
@@ -143,6 +148,8 @@ pub fn core_spaces(tier: &str, seed: i64, heavy: bool) -> Vec<Space> {
         v.push(Space::bfs("rights", ROOT_RIGHTS, 3));
         v.push(Space::bfs("ladder", ROOT_LADDER, 4));
         v.push(Space::bfs("ladder-open", ROOT_LADDER_OPEN, 3));
+        v.push(Space::bfs("promo-full", ROOT_PROMO_FULL, 2));
+        v.push(Space::bfs("promo-full-mirror", ROOT_PROMO_FULL_MIRROR, 2));
         v.push(Space::closure("KRk", ROOT_KRK));
         // long histories: the state stack close to the 400-ply interface limit
         v.push(Space::line("startpos-any", ROOT_START, 398, 2));
@@ -188,6 +195,8 @@ pub fn core_spaces(tier: &str, seed: i64, heavy: bool) -> Vec<Space> {
         v.push(Space::bfs("rights", ROOT_RIGHTS, 4));
         v.push(Space::bfs("ladder", ROOT_LADDER, 6));
         v.push(Space::bfs("ladder-open", ROOT_LADDER_OPEN, 5));
+        v.push(Space::bfs("promo-full", ROOT_PROMO_FULL, 3));
+        v.push(Space::bfs("promo-full-mirror", ROOT_PROMO_FULL_MIRROR, 3));
         v.push(Space::closure("KRk", ROOT_KRK));
         v.push(Space::closure("KQk", ROOT_KQK));
         v.push(Space::closure("KPk", ROOT_KPK));
